@@ -227,6 +227,8 @@ func envOpenErr(err error) string {
 		return "err:parity"
 	case strings.Contains(s, "wrong message key"):
 		return "err:wrongMsgKey"
+	case strings.Contains(s, "auth key is too short"):
+		return "err:shortKey"
 	}
 	return "err:other(" + strings.ReplaceAll(s, " ", "_") + ")"
 }
